@@ -248,7 +248,7 @@ theorem gatherRows_spec (nan : β) (sf : Sparse β) (nloc : Nat) (spikeIds : Lis
     (hdata : ∀ r ∈ sf.data, r.length = nloc)
     (hrows : ∀ rows, sf.rows = some rows → rows.Nodup ∧ rows.length = sf.data.length)
     (hnone : sf.rows = none → ∀ q ∈ spikeIds, q < sf.data.length)
-    (hs : spikeIds.Nodup) :
+    (hs : sf.rows ≠ none → spikeIds.Nodup) :
     ∃ feats, gatherRows nan sf nloc spikeIds = some feats ∧ feats.length = spikeIds.length ∧
       (∀ r ∈ feats, r.length = nloc) ∧
       ∀ i (hi : i < spikeIds.length) row, storedRow sf (spikeIds[i]'hi) = some row →
@@ -272,6 +272,7 @@ theorem gatherRows_spec (nan : β) (sf : Sparse β) (nloc : Nat) (spikeIds : Lis
       simp [List.getD_eq_getElem?_getD, hrow', hi]
   | some rows =>
     simp only at hdata
+    have hs : spikeIds.Nodup := hs (by simp)
     obtain ⟨hrnd, hrlen⟩ := hrows rows rfl
     have hmem := mem_intersect1d spikeIds rows
     have hrel := PhyVerif.Np.Lemmas.indexOf_eq ((intersect1d spikeIds rows).map Int.ofNat) rows hrnd
@@ -380,7 +381,7 @@ theorem colsRow_ok (sf : Sparse β) (nloc nSpikes nTemplates : Nat) (spikeTempla
 
 theorem getFeatures_spec (zero nan : β) (sf : Sparse β) (nloc nSpikes nTemplates : Nat)
     (spikeTemplates : List Nat) (hst : StoreOK sf nloc nSpikes nTemplates spikeTemplates)
-    (spikeIds chans : List Nat) (hs : spikeIds.Nodup) (hsr : ∀ q ∈ spikeIds, q < nSpikes)
+    (spikeIds chans : List Nat) (hs : sf.rows ≠ none → spikeIds.Nodup) (hsr : ∀ q ∈ spikeIds, q < nSpikes)
     (hc : chans.Nodup) :
     ∃ out, getFeatures zero nan sf nloc spikeTemplates spikeIds chans = some out ∧
       out.length = spikeIds.length ∧
@@ -420,7 +421,7 @@ theorem getFeatures_spec (zero nan : β) (sf : Sparse β) (nloc nSpikes nTemplat
 
 theorem getTemplateFeatures_spec (zero nan : β) (tf : Sparse β) (nloc nSpikes nTemplates : Nat)
     (spikeTemplates : List Nat) (hst : StoreOK tf nloc nSpikes nTemplates spikeTemplates)
-    (spikeIds : List Nat) (hs : spikeIds.Nodup) (hsr : ∀ q ∈ spikeIds, q < nSpikes) :
+    (spikeIds : List Nat) (hs : tf.rows ≠ none → spikeIds.Nodup) (hsr : ∀ q ∈ spikeIds, q < nSpikes) :
     ∃ out, getTemplateFeatures zero nan tf nloc spikeTemplates nTemplates spikeIds = some out ∧
       out.length = spikeIds.length ∧
       ∀ i (hi : i < spikeIds.length) row, storedRow tf (spikeIds[i]'hi) = some row →
